@@ -78,9 +78,70 @@ def _ownership(repo: Repo, rep: Report) -> None:
                       loc=f"{fi.loc.split(':')[0]}:{ln}", statement=txt)
 
 
+CTOR_FREE = {"first_method", "allow_postponed_evaluation"}  # free-form / constant arguments
+
+
+def _ctor_roles(repo: Repo, rep: Report, c) -> None:
+    """R14.10: every `CodeBuilder(...)` call in generated code (lazy stubs, dialect dispatchers, variant builders)
+    passes, for each keyword, the run-time value that carries that role: the keyword's name occurs in the value's name
+    (dialect=dialect / __lazy_dialect, default_dialect=_default_dialect / the generation-time default dialect,
+    format_name=<B.format_name>, encoder=<B.encoder>, attrs_registry=<spec.attrs_registry_name> ...), and a plain
+    `dialect` never receives a default dialect or vice versa.  A swapped role compiles the recompiled method under other
+    options than the method it replaces, so behaviour depends on whether compilation was eager, lazy or on demand."""
+    import re as _re
+
+    seen = set()
+    n = 0
+    for it in c.items:
+        for l in it.lines:
+            sh = l.tmpl.show()
+            i = sh.find("CodeBuilder(")
+            if i < 0:
+                continue
+            key = (l.site[0], sh)
+            if key in seen:
+                continue
+            seen.add(key)
+            depth = 0
+            args, cur = [], ""
+            for ch in sh[i + len("CodeBuilder("):]:
+                if ch in "([{":
+                    depth += 1
+                elif ch in ")]}":
+                    if depth == 0:
+                        break
+                    depth -= 1
+                if ch == "," and depth == 0:
+                    args.append(cur)
+                    cur = ""
+                else:
+                    cur += ch
+            args.append(cur)
+            for a in args:
+                m = _re.match(r"\s*(\w+)=(.*)$", a, _re.S)
+                if not m:
+                    continue
+                k, v = m.group(1), m.group(2).strip()
+                if k in CTOR_FREE:
+                    continue
+                n += 1
+                ok = k in v
+                if k == "dialect" and "default" in v:
+                    ok = False
+                inst = f"{l.site[0].split('::')[-1]}: CodeBuilder(... {k}={v[:60]} ...)"
+                if ok:
+                    rep.ok("R14.10", inst, None)
+                else:
+                    rep.violation("R14.10", l.site[0], f"generated CodeBuilder(...) passes `{v[:60]}` as `{k}`",
+                                  "the recompiling call hands over a value of another role (e.g. the call dialect as default dialect): the method compiled on demand differs from the one "
+                                  "an eager or nested compilation would have produced", loc=f"{l.site[0]}:{l.site[1]}")
+    rep.floor("R14.10", 30)
+
+
 def run(repo: Repo, rep: Report, tier: str) -> None:
     _ownership(repo, rep)
     c = corpus_mod.explore_all(repo, tier)
+    _ctor_roles(repo, rep, c)
     for e in c.errors:
         rep.undecide("corpus", e)
     seen: Set[str] = set()
